@@ -63,6 +63,9 @@ def build_corpus(tier, rng):
         items.append(("case-twins", Item("E", [Variant("Enter", "unit", [], list(f_)), Variant("Tab", "unit", [], [ser("tab"), ser("TAB")] + f_),
                                                Variant("Escape", "tuple", [Field("u8")], f_ + [ser("Esc"), ser("ESC"), ser("esc")]), Variant("Off", "unit", [], [DISABLED, ser("off"), ser("OFF")] + f_),
                                                Variant("Up", "unit", [], [ser("u"), ser("UP"), ser("up")] + f_)], metas=[EM("aci")] if fl is False else [])))
+    # the ENUM is named by a raw identifier (`enum r#type`): every derive names what it generates after the un-rawed name
+    items.append(("raw-enum-name", Item("r#type", [Variant("Alpha", "unit"), Variant("Beta", "unit", [], [DISABLED]), Variant("Gamma", "unit", [], [ser("g")])])))
+    items.append(("raw-enum-name", Item("r#match", [Variant("Alpha", "tuple", [Field("u8")]), Variant("Beta", "unit"), Variant("r#loop", "named", [Field("i32", "a")])])))
     # two variants with the SAME canonical name: every list still has one entry per variant
     items.append(("samename", Item("E", [Variant("HTTPServer", "unit"), Variant("HttpServer", "unit"), Variant("Other", "unit")], metas=[EM("sall", "kebab-case")])))
     items.append(("samename", Item("E", [Variant("Crimson", "unit", [], [ser("Red")]), Variant("Red", "unit"), Variant("Blue", "tuple", [Field("u8")], [tos("Red")])])))
